@@ -565,6 +565,7 @@ pub fn run_set(cfg: &Cfg, ops: &[Op]) -> Result<(), (Viol, usize)> {
         ElemKind::U64 => run_set_ops::<u64>(cfg, ops),
         ElemKind::TrInline => run_set_ops::<Tr<false>>(cfg, ops),
         ElemKind::TrHeap => run_set_ops::<Tr<true>>(cfg, ops),
+        ElemKind::Big => run_set_ops::<Big>(cfg, ops),
     }
 }
 
@@ -848,6 +849,7 @@ pub fn sets(a: &Args, rep: &mut Report) {
             ElemKind::U64 => set_history::<u64>(&mut hr, &cfg, keyspace, n, max_len, noforget),
             ElemKind::TrInline => set_history::<Tr<false>>(&mut hr, &cfg, keyspace, n, max_len, noforget),
             ElemKind::TrHeap => set_history::<Tr<true>>(&mut hr, &cfg, keyspace, n, max_len, noforget),
+            ElemKind::Big => set_history::<Big>(&mut hr, &cfg, keyspace, n, max_len, noforget),
         };
         rep.evaluations += 1;
         let tag = format!("sets-{}-s{}-i{}-h{}", flavour(), sh.seed, sh.index, h);
@@ -883,6 +885,7 @@ pub fn sets(a: &Args, rep: &mut Report) {
                 ElemKind::U64 => algebra_case::<u64>(&mut hr, rep, &tag),
                 ElemKind::TrInline => algebra_case::<Tr<false>>(&mut hr, rep, &tag),
                 ElemKind::TrHeap => algebra_case::<Tr<true>>(&mut hr, rep, &tag),
+                ElemKind::Big => algebra_case::<Big>(&mut hr, rep, &tag),
             }
         }
     }
